@@ -29,6 +29,7 @@ txt = {
  "V_contact1": "<sip:alice@pc33.a.example>", "V_contact2": "<sip:a@b>;expires=3600, \"x,y\" <sip:c@d>;q=0.5;expires=60",
  "V_contact3": "*", "V_contact4": "sip:a@b;expires=10", "V_contact5": "<sip:a@b>,\r\n <sip:c@d>;lr",
  "V_contact6": "<sip:1@h>, <sip:2@h>, <sip:3@h>",
+ "V_contact7": "<sip:a@host>;q=0.7;tag=xyz , <sip:c@host>", "V_pai4": "<sip:a@b>;x=y;tag=q1 \t, \"C\" <sip:c@d>;tag=r",
  "V_expires1": "3600", "V_expires2": "0",
  "V_ua": "Softphone Beta1.5", "V_rr": "<sip:p1.example;lr>", "V_route": "<sip:p2.example;lr>, <sip:p3.example>",
  "V_pai1": "\"Cullen\" <sip:fluffy@c.example>", "V_pai2": "<sip:a@b>, <tel:+14085264000>", "V_pai3": "<sip:a@b>, <sip:c@d>, <sip:e@f>",
